@@ -28,6 +28,7 @@ go test -vet=off -count=1 ./... > /tmp/vs-$id.suite.log 2>&1; rc=$?
 res $V suite_with_change "exit $rc; $(grep -c '^ok' /tmp/vs-$id.suite.log) packages ok; $(grep -c '^FAIL\|^--- FAIL' /tmp/vs-$id.suite.log) FAIL lines"
 # demo files
 (cd $S && find . -type f ! -name patch.diff ! -name patch.orig.diff ! -name meta.json ! -name demo.md ! -name verified.json ! -path './alt_*' | while read f; do mkdir -p $W/$(dirname $f); cp $f $W/$f; done)
+cp -r $S $W/_seed
 $demo > /tmp/vs-$id.demo1.log 2>&1; rc1=$?
 res $V demo_with_change "exit $rc1 ($demo)"
 git apply -R $S/patch.diff
